@@ -530,3 +530,25 @@ Proof.
   - rewrite <- Hc, <- Hlen. exact Hfit.
   - rewrite <- Hc. exact Hb.
 Qed.
+
+(* ---- key_okb decides key_ok exactly ---- *)
+Lemma nodupb_complete l : NoDup l -> nodupb l = true.
+Proof.
+  induction l as [|x r IH]; intros H; [reflexivity|].
+  inversion H as [|? ? Hnotin Hr]; subst. cbn [nodupb]. rewrite IH by exact Hr.
+  rewrite andb_true_r. apply negb_true_iff.
+  destruct (existsb (N.eqb x) r) eqn:E; [|reflexivity]. exfalso.
+  apply existsb_exists in E as (y & Hy & Heq). apply N.eqb_eq in Heq. subst y. exact (Hnotin Hy).
+Qed.
+
+Theorem key_okb_complete ncols wire values : key_ok ncols wire values -> key_okb ncols wire values = true.
+Proof.
+  intros (Hnd & Hin & HV). unfold key_okb.
+  rewrite (nodupb_complete wire Hnd). cbn [andb].
+  apply andb_true_iff. split; [|apply N.leb_le; exact HV].
+  apply forallb_forall. intros i Hi. destruct (Hin i Hi) as (A & B & (b & Hb)).
+  apply Nat.ltb_lt in A, B. rewrite A, B, Hb. reflexivity.
+Qed.
+
+Theorem key_okb_iff ncols wire values : key_okb ncols wire values = true <-> key_ok ncols wire values.
+Proof. split; [apply key_okb_sound|apply key_okb_complete]. Qed.
